@@ -499,7 +499,9 @@ def _flatten(*list_of_arrays):
         return list_of_arrays[0]
     kwargs = dict(indexing="ij")
     grd = np.meshgrid(*list_of_arrays, **kwargs)
-    array_of_tuples = np.array(list(zip(*[g.ravel() for g in grd])))
+    array_of_tuples = np.empty((grd[0].size, len(grd)), dtype=object) # one column per array, whatever its values (e.g. tuples)
+    for i, g in enumerate(grd):
+        array_of_tuples[:, i] = g.ravel()
     assert array_of_tuples.shape[1] == len(list_of_arrays), "pb when reshaping: {} and {}".format(array_of_tuples.shape, len(list_of_arrays))
     assert array_of_tuples.shape[0] == np.prod([x.size for x in list_of_arrays]), "pb when reshaping: {} and {}".format(array_of_tuples.shape, np.prod([x.size for x in list_of_arrays]))
     return array_of_tuples
